@@ -2,13 +2,16 @@
 """prints the prompt given to a seeding sub-agent for property <ID> (property text only; nothing else from /verif)"""
 import json, sys
 pid = sys.argv[1]
+WT = sys.argv[2] if len(sys.argv) > 2 else '/tmp/wt'
+SD = sys.argv[3] if len(sys.argv) > 3 else '/tmp/seed'
+AVOID = sys.argv[4] if len(sys.argv) > 4 else ''
 for l in open('/verif/properties.jsonl'):
     p = json.loads(l)
     if p['id'] == pid:
         break
 print(f"""You are helping to evaluate a verification tool by producing ONE realistic, subtle defect ("seeded change") in the Go project bloxapp/ssv (an SSV node: Istanbul-BFT/QBFT consensus among operators holding BLS key shares of an Ethereum validator).
 
-Your private scratch copy of the repository is the git worktree at /tmp/wt/{pid} (detached HEAD of the pinned commit). Work ONLY there and under /tmp/seed/{pid}. Do NOT read, list or touch /verif or /repo, do not commit anything, do not create other worktrees.
+Your private scratch copy of the repository is the git worktree at {WT}/{pid} (detached HEAD of the pinned commit). Work ONLY there and under {SD}/{pid}. Do NOT read, list or touch /verif or /repo, do not commit anything, do not create other worktrees.
 
 THE PROPERTY your change must break (this text is all you get about it):
 
@@ -24,10 +27,11 @@ A small source change to bloxapp/ssv (non-test .go files in the worktree; typica
   2. the property above is violated, but ONLY under something specific: a particular interleaving, a crash or fault at a particular point, a multi-step sequence of operations, an unusual input/field combination, a boundary value, or two cooperating sites that each look fine alone. NOT a change that ordinary use or any existing test would expose at once (e.g. do not simply delete a whole check so that everything is accepted, unless no existing test would notice and it still needs an unusual input to matter);
   3. you provide a DEMONSTRATION: a Go test file (in-package _test.go, or a small program) that FAILS with your change applied and PASSES on the unmodified code. It must exercise the real code (no mocks of the function you changed).
 
+{('An earlier seeded change for this property already used this site, so choose a DIFFERENT site and mechanism: ' + AVOID) if AVOID else ''}
 Prefer changes in the anchored files/mechanisms listed above. Think about which inputs/schedules the existing tests do not cover and aim there.
 
-DELIVERABLES (all under /tmp/seed/{pid}/):
-  - patch.diff : output of `git -C /tmp/wt/{pid} diff` containing ONLY the source change (NOT the demonstration test);
+DELIVERABLES (all under {SD}/{pid}/):
+  - patch.diff : output of `git -C {WT}/{pid} diff` containing ONLY the source change (NOT the demonstration test);
   - the demonstration test file(s), plus demo_cmd.txt with the exact command(s) to run it from the worktree root and where the file must be placed (path relative to the repo root);
   - meta.json : {{"property": "{pid}", "summary": "...what was changed...", "needs_to_manifest": "...the specific input/schedule/fault...", "why_existing_tests_pass": "...", "demo_fails_with_patch": true/false (as you observed), "demo_passes_without_patch": true/false (as you observed), "existing_tests_run": ["...commands you ran and their result..."]}}
 When done, leave the worktree with the patch APPLIED and the demo test file in place. Your final message should summarise the change in 5-10 lines.
